@@ -212,7 +212,10 @@ def build(reg):
         eng.may_raise(st, st.env["types_ok"].t, "ValueError", "self._check_config_types(config_dict)")
         return NoneV()
     check_types.modifies = []
-    ens = [("no_config_silent", f"implies(not {anyp}, self.msgs == old(self.msgs) and {unchanged})"),
+    # a file asked for by name (-c) that does not exist is missed with a message; the default names are optional
+    named = "(self.config != '.fortlsrc' and self.config != '.fortls.json' and self.config != '.fortls')"
+    ens = [("no_config_silent", f"implies(not {anyp} and not {named}, self.msgs == old(self.msgs) and {unchanged})"),
+           ("named_file_missing_message", f"implies(not {anyp} and {named}, self.msgs == old(self.msgs) + 1 and {unchanged})"),
            ("bad_file_message", f"implies({anyp} and not {good}, self.msgs == old(self.msgs) + 1)"),
            ("bad_file_unchanged", f"implies({anyp} and not {good}, {unchanged})"),
            ("good_file_silent", f"implies({good}, self.msgs == old(self.msgs))"),
@@ -411,7 +414,7 @@ def extra(repo, reg, tier, seed):  # noqa: F811
     bad_cfgs = ['{"excl_paths": 5}', '{"nthreads": "four"}', '{"incl_suffixes": 1.5}', '{"include_dirs": null}', '{"nthreads": 0}',
                 '{"recursion_limit": "a"}', '{"source_dirs": "src"}', '{"pp_defs": "FOO"}', '{"pp_defs": 3}', '{"hover_language": 3}',
                 '{"pp_suffixes": 3}', '{"debug_log": "yes"}', '{"max_line_length": true}', '{"excl_suffixes": [1, 2]}',
-                '{"nthreads": 2, "hover_language": "f08", "symbol_skip_mem": 1}']
+                '{"nthreads": 2, "hover_language": "f08", "symbol_skip_mem": 1}', "[" * 5000, '{"a":' * 5000, "{", "[1, 2]", "null"]
     fails = []
     for cfg in bad_cfgs:
         ws = Workspace({".fortlsrc": cfg, "a.f90": "program p\nend program p\n"})
@@ -460,6 +463,18 @@ def extra(repo, reg, tier, seed):  # noqa: F811
         finally:
             ws.close()
             _sys.setrecursionlimit(_limit)
+    # a configuration file asked for by name that does not exist; macro names given as a list on the command line
+    ws = Workspace({"a.f90": "program p\nend program p\n"})
+    try:
+        srv, out = session(ws, [], argv=["-c", "no_such_config.json"], keep_threads=True)
+        if not [m for m in out if m.get("method") == "window/showMessage"] or "result" not in [m for m in out if m.get("id") == 0][0]:
+            fails.append({"config": "-c no_such_config.json (missing)", "problem": "no user-visible message, or initialize failed"})
+        srv, out = session(ws, [], argv=["--pp_defs", '["AAA", "BBB"]'], keep_threads=True)
+        if srv.pp_defs != {"AAA": "", "BBB": ""}:
+            fails.append({"config": "--pp_defs [\"AAA\", \"BBB\"]", "problem": "a list of macro names on the command line is not "
+                          "what the same list means in the file", "pp_defs": repr(srv.pp_defs)[:100]})
+    finally:
+        ws.close()
     items.append(option_effects())
     name = "C19/LangServer._load_config_file/ensures.wrong_value_types"
     if fails:
